@@ -20,6 +20,7 @@ INVARIANT EmitDone
 # what the value is concretely after k changes: the count itself, a balance spent down to zero, and values of mixed kinds that end up falsy
 PALETTES = {'count': lambda k: k,
             'down-to-zero': lambda k: 2 - k,
+            'noisy': lambda k: k,
             'mixed': lambda k: {0: 'tz1delegate', 1: None, 2: '', 3: (), 4: 0.5}.get(k, 'v%d' % k)}
 
 
@@ -33,6 +34,10 @@ def impl(head, last, changes, step, mode, palette='count'):
         probes.append(level)
         return val(sum(1 for c in cs if c <= level))
     eq = lambda a, b: a == b
+    if palette == 'noisy':       # the representation differs from level to level; only the caller's equals says what a change is
+        inner = get
+        get = lambda level: (inner(level), level % 3)
+        eq = lambda a, b: a[0] == b[0]
     try:
         if mode == 'all':
             out = [tuple(x) for x in search.find_state_changes(head, last, get, eq, step=step)]
@@ -46,6 +51,8 @@ def impl(head, last, changes, step, mode, palette='count'):
 def compare(ctx, head, last, changes, step, mode, model_out, sig='C29:replay', palette='count'):
     got, probes = impl(head, last, changes, step, mode, palette)
     want = [(x[0], PALETTES[palette](x[1])) for x in model_out]
+    if palette == 'noisy':
+        want = [(l, (v, l % 3)) for l, v in want]
     case = {'head': head, 'last': last, 'changes': list(changes), 'step': step, 'mode': mode, 'out': to_json(model_out), 'palette': palette}
     if palette != 'count':
         sig += ':values-' + palette
@@ -70,7 +77,7 @@ def run(ctx):
     ctx.rule = ('histories over (last, head] given by their set of change levels (value = number of changes so far, so it never returns); '
                 'Leg A: TLC runs the intended sampling + bisection algorithm probe by probe and checks the output equals the set of changes; '
                 'Leg B: every completed search is replayed through find_state_changes / find_state_change; non-trivial = at least one change')
-    ctx.assumptions = ['equals is ==; values are change counts, which covers every history that never returns to an earlier value up to renaming; every history with a change is replayed under two more renamings (a balance going down to 0; a delegate string, None, empty string, empty tuple, ...)',
+    ctx.assumptions = ['equals is == (in one renaming the values carry a level-dependent tag that a non-trivial equals ignores); values are change counts, which covers every history that never returns to an earlier value up to renaming; every history with a change is replayed under two more renamings (a balance going down to 0; a delegate string, None, empty string, empty tuple, ...)',
                        'find_state_change is only compared on histories that contain a change (its contract presupposes one)']
     last0 = 3
     rng_, mc = (9, 3) if ctx.quick else (13, 4)
@@ -87,7 +94,7 @@ def run(ctx):
         ctx.replayed += 1
         ctx.count((head, changes, step, mode), nontrivial=len(changes) > 0)
         if changes:
-            for pal in ('down-to-zero', 'mixed'):      # the same history with other concrete values (the search only ever compares them)
+            for pal in ('down-to-zero', 'mixed', 'noisy'):      # the same history with other concrete values (the search only ever compares them)
                 ok = compare(ctx, head, last0, changes, step, mode, out, palette=pal) and ok
                 ctx.replayed += 1
                 ctx.count((head, changes, step, mode, pal), nontrivial=True)
